@@ -1,5 +1,6 @@
 import SvgVerif.Model.PathState
 import SvgVerif.Model.CubicCache
+import SvgVerif.Model.ArcCache
 import Mathlib.Data.List.Basic
 import Mathlib.Tactic.Cases
 /-! # C16 — observations after any mutation history equal those of a freshly built object
@@ -482,6 +483,72 @@ theorem cubic_cache_buggy_witness :
   decide
 example : (cubicLength (fun (_ : Unit) (e : Nat) (_ : Nat) => e) (some ⟨(), 5, 0, 5⟩) () 1 0).1 ≤ 1 := by decide
 end cubic
+
+/-! ## Arc's length cache (as repaired, 4574cbe): every answer is the computation for the current fields and the requested accuracy -/
+section arccache
+open SvgVerif.Model.ArcCache
+variable {F H E D V : Type} [DecidableEq H] [DecidableEq E] [DecidableEq D]
+
+/-- cache invariant: the stored value is what `compute` gives for some request with the stored key -/
+def ArcCacheGood (hash : F → H) (compute : F → E → D → V) : Option (Entry H E D V) → Prop
+  | none => True
+  | some c => ∃ f e d, c.key = (hash f, e, d) ∧ c.value = compute f e d
+
+theorem arc_cache_exact (hash : F → H) (compute : F → E → D → V) (hinj : Function.Injective hash)
+    (cache : Option (Entry H E D V)) (hc : ArcCacheGood hash compute cache) (f : F) (e : E) (d : D) :
+    (arcLength hash compute cache f e d).1 = compute f e d ∧ ArcCacheGood hash compute (arcLength hash compute cache f e d).2 := by
+  unfold arcLength
+  cases cache with
+  | none => exact ⟨rfl, ⟨f, e, d, rfl, rfl⟩⟩
+  | some c =>
+    by_cases h : c.key = (hash f, e, d)
+    · simp only [if_pos h]
+      obtain ⟨f', e', d', hk, hv⟩ := hc
+      rw [h] at hk
+      have h1 : hash f = hash f' := congrArg (·.1) hk
+      have h2 : e = e' := congrArg (·.2.1) hk
+      have h3 : d = d' := congrArg (·.2.2) hk
+      have hf := hinj h1
+      refine ⟨?_, f', e', d', ?_, hv⟩
+      · rw [hv, hf, h2, h3]
+      · rw [h, h1, h2, h3]
+    · simp only [if_neg h]
+      exact ⟨trivial, ⟨f, e, d, rfl, rfl⟩⟩
+
+/-- every answer along any history of requests (the fields may change between requests) is the fresh computation -/
+theorem arc_cache_history (hash : F → H) (compute : F → E → D → V) (hinj : Function.Injective hash)
+    (reqs : List (F × E × D)) (cache : Option (Entry H E D V)) (hc : ArcCacheGood hash compute cache) :
+    let run := reqs.foldl (fun (acc : Option (Entry H E D V) × List V) (q : F × E × D) =>
+      let r := arcLength hash compute acc.1 q.1 q.2.1 q.2.2
+      (r.2, acc.2 ++ [r.1])) (cache, [])
+    run.2 = reqs.map (fun q => compute q.1 q.2.1 q.2.2) := by
+  intro run
+  suffices h : ∀ (reqs : List (F × E × D)) (cache : Option (Entry H E D V)) (pre : List V), ArcCacheGood hash compute cache →
+      (reqs.foldl (fun (acc : Option (Entry H E D V) × List V) (q : F × E × D) =>
+        let r := arcLength hash compute acc.1 q.1 q.2.1 q.2.2
+        (r.2, acc.2 ++ [r.1])) (cache, pre)).2 = pre ++ reqs.map (fun q => compute q.1 q.2.1 q.2.2) by
+    simpa using h reqs cache [] hc
+  intro reqs
+  induction reqs with
+  | nil => intro cache pre _; simp
+  | cons q rest ih =>
+    intro cache pre hc
+    obtain ⟨h1, h2⟩ := arc_cache_exact hash compute hinj cache hc q.1 q.2.1 q.2.2
+    simp only [List.foldl_cons, List.map_cons]
+    rw [ih _ _ h2, h1]
+    simp
+
+/-- witness against the pre-repair key: a value computed for the loose request is returned for the strict one -/
+theorem arc_cache_old_witness :
+    (arcLengthOld (fun (_ : Unit) => 0) (fun (_ : Unit) (e : Nat) (_ : Nat) => e) (some (0, 5)) () 1 0).1 = 5 := by decide
+example : (arcLength (fun (_ : Unit) => 0) (fun (_ : Unit) (e : Nat) (_ : Nat) => e) (some ⟨(0, 5, 0), 5⟩) () 1 0).1 = 1 := by decide
+
+/-- the hypothesis is needed: with a colliding hash a stale value is returned for changed fields
+(CPython: `hash(-1.0) == hash(-2.0)`; reaching this needs an in-place edit of an Arc followed by the private
+`_parameterize()`, which the library itself never does) -/
+theorem arc_cache_collision_witness :
+    (arcLength (fun (_ : Nat) => 0) (fun (f : Nat) (_ : Nat) (_ : Nat) => f) (some ⟨(0, 1, 0), 7⟩) 8 1 0).1 = 7 := by decide
+end arccache
 
 /-! ## equal objects have equal hashes -/
 /-- segments hash the very tuple of fields that `__eq__` compares; modelled with an arbitrary
